@@ -56,6 +56,10 @@ class C10(Prop):
             else:
                 dtype, vals, enum = tc.gen_string_feature(rng, n)
                 c.update(fkind="string", kind=dtype, feature=vals, enum=enum, xcontainer="polars")
+            if c["w"] is not None and rng.random() < 0.3:
+                c["w"] = tc.zero_some_weights(rng, c["feature"], c["w"])
+                if c["n_max"] < n and sum(c["w"][int(i)] for i in np.random.default_rng(c["seed"]).choice(n, size=c["n_max"], replace=False)) == 0:
+                    c["n_max"] = 1000  # the drawn subsample must keep a positive total weight
             yield c
 
     def build(self, case):
